@@ -55,7 +55,16 @@ def o_cohere(spec, r, extra):
     if r['status'] != 'ok' or r['ret'] == H_THROW: return True, f"mscohere: {r['status']} / threw"
     out = r['outs'][1][:r['ret']]
     return any(abs(v - 1.0) > 1e-6 for v in out), f"mscohere(x, {spec[1][1]}*x) at signal level {max(abs(v) for v in spec[0][1]):.1e} = {out}; a scaled copy must give 1 at every frequency"
-ORACLES = {'welch': o_welch, 'cohere': o_cohere}
+def o_ovl(spec, r, extra):
+    cplx, ovl, x, nx, winlen, nov, nfft, scale = [spec[i][1] for i in range(8)]; mod, so = load(HARNESS); nout = nfft if cplx else nfft // 2 + 1
+    desc = f"welch({'complex' if cplx else 'real'} x[{nx}], " + ['winlen', 'hamming window', 'winlen, noverlap, nfft'][ovl] + f", {'Power' if scale else 'Psd'})"
+    if r['status'] != 'ok' or r['ret'] == H_THROW: return True, f"{desc}: {r['status']} / threw"
+    full = native_call(so, 'h_welch', [('i32', cplx), ('pf64', x), ('i32', nx), ('i32', 0), ('i32', winlen), ('i32', nov), ('i32', nfft), ('i32', scale), ('pf64', [0.0] * nout), ('pf64', [0.0] * nout), ('pf64', [0.0] * winlen)], 'i32')
+    if full['status'] != 'ok': return True, f'{desc}: full overload failed'
+    a = r['outs'][1][:nout]; b = full['outs'][1][:nout]
+    bad = r['ret'] != full['ret'] or any(not (abs(u - v) <= 1e-12 * max(abs(v), 1e-300)) for u, v in zip(a, b)) or any(u != v for u, v in zip(r['outs'][2][:nout], full['outs'][2][:nout]))
+    return bad, f"{desc} = {a[:4]}.., but welch(x, hamming({winlen}), {nov}, {nfft}, {'Power' if scale else 'Psd'}) = {b[:4]}.. (documented defaults of the convenience overload)"
+ORACLES = {'welch': o_welch, 'cohere': o_cohere, 'ovl': o_ovl}
 
 def job_welch(res, cplx, nfft, winlen, noverlap, nseg, wkind, scale, tail=1):
     mod, so = load(HARNESS); w_ = 2 if cplx else 1
@@ -157,7 +166,32 @@ def job_cohere(res, nfft, winlen, noverlap, nseg, wkind, after=False):
             confirm(res, PID, HARNESS, fn, [('pf64', xv), ('f64', 3.0), ('i32', nx), ('i32', wkind), ('i32', winlen), ('i32', noverlap), ('i32', nfft), ('pf64', [0.0] * nout)], 'i32', 'cohere', ORACLES, 'mscohere:scaled-copy' + (':history' if after else ''),
                     f'{label}: bin {k}: numerator and denominator of the coherence differ (relative coefficient gap {float(worst):.3g}): a scaled copy is not reported as fully coherent at every level'); return
 
-JOBFNS = {'welch': job_welch, 'cohere': job_cohere}
+def job_ovl(res, cplx, winlen, nseg):
+    """every convenience overload, both scalings, samples symbolic: same terms as the full overload called with the documented defaults (hamming window, winlen/2 overlap, nfft = 2^nextpow2(winlen))"""
+    mod, so = load(HARNESS); w_ = 2 if cplx else 1; nov = winlen // 2; nfft = 1 << (winlen - 1).bit_length(); nx = winlen + (nseg - 1) * (winlen - nov); nout = nfft if cplx else nfft // 2 + 1
+    xs = [fsym(f'x{i}') for i in range(nx * w_)]; xv = [math.sin(0.9 * i) + 0.3 * math.cos(2.3 * i) for i in range(nx * w_)]
+    for scale in (0, 1):
+        m0 = Machine(mod, max_steps=200_000_000)
+        try: r0, o0, _ = sym_call(m0, 'h_welch', [('i32', cplx), ('pf64', xs), ('i32', nx), ('i32', 0), ('i32', winlen), ('i32', nov), ('i32', nfft), ('i32', scale), ('pf64', [0.0] * nout), ('pf64', [0.0] * nout), ('pf64', [0.0] * winlen)], 'i32')
+        except (Throw, UB) as e: res.absorb(m0); res.inc(f'welch full overload: {type(e).__name__}'); continue
+        res.absorb(m0)
+        for ovl in (0, 1, 2):
+            label = f"welch({'complex' if cplx else 'real'} x[{nx}], " + ['winlen', 'hamming window', 'winlen, noverlap, nfft'][ovl] + f", {'Power' if scale else 'Psd'}) winlen={winlen}"
+            m = Machine(mod, max_steps=200_000_000); spec = [('i32', cplx), ('i32', ovl), ('pf64', xs), ('i32', nx), ('i32', winlen), ('i32', nov), ('i32', nfft), ('i32', scale), ('pf64', [0.0] * nout), ('pf64', [0.0] * nout)]
+            try: r, o, _ = sym_call(m, 'h_welch_ovl', spec, 'i32'); st = 'ret'
+            except (Throw, UB) as e: st = type(e).__name__; r = None
+            res.absorb(m)
+            ok = st == 'ret' and r == r0 and all((a is b) or (not isF(a) and not isF(b) and same_bits(a, b)) for a, b in zip(o[1][:nout] + o[2][:nout], o0[1][:nout] + o0[2][:nout]))
+            if not ok and st == 'ret' and r == r0:
+                low = Lower('REAL'); sol = z3.Solver(); sol.set('timeout', 120000)
+                sol.add(z3.Or([(low(a) if isF(a) else z3.RealVal(Fraction(a))) != (low(b) if isF(b) else z3.RealVal(Fraction(b))) for a, b in zip(o[1][:nout] + o[2][:nout], o0[1][:nout] + o0[2][:nout])]))
+                ok = timed_check(sol, res, 120000) == z3.unsat
+            else:
+                sol = z3.Solver(); sol.add(z3.Not(z3.BoolVal(bool(ok)))); timed_check(sol, res)
+            if ok: res.ob(True, 'UF', f'{label}: same values and frequencies as the full overload with the documented defaults, for every input')
+            else: confirm(res, PID, HARNESS, 'h_welch_ovl', [('i32', cplx), ('i32', ovl), ('pf64', xv)] + spec[3:8] + [('pf64', [0.0] * nout), ('pf64', [0.0] * nout)], 'i32', 'ovl', ORACLES, f'welch:overload:{ovl}:{"cmplx" if cplx else "real"}', f'{label}: differs from the full overload with the documented defaults ({st})')
+
+JOBFNS = {'welch': job_welch, 'cohere': job_cohere, 'ovl': job_ovl}
 
 def selftest(st):
     calls = []
@@ -186,7 +220,9 @@ def main(tier, seed):
         for (nfft, winlen, nov) in ([(4, 4, 2), (8, 8, 4), (8, 6, 2)] if q else [(4, 4, 2), (4, 4, 0), (8, 8, 4), (8, 8, 0), (8, 6, 2), (8, 5, 1), (16, 16, 8)]):
             for nseg in (2, 3):
                 jobs.append((f'welch aligned c={cplx} nfft={nfft} w={winlen}/{nov} seg={nseg}', 'welch', dict(cplx=cplx, nfft=nfft, winlen=winlen, noverlap=nov, nseg=nseg, wkind=0, scale=0, tail=0), 1500))
-    jobs.sort(key=lambda j: -(j[2]['nfft'] * (2 if j[2].get('cplx') else 1)))
+    for cplx in (0, 1):
+        for (winlen, nseg) in ([(4, 2), (6, 1)] if q else [(4, 2), (6, 1), (8, 3), (5, 2), (16, 2)]): jobs.append((f'welch overloads c={cplx} winlen={winlen}', 'ovl', dict(cplx=cplx, winlen=winlen, nseg=nseg), 1500))
+    jobs.sort(key=lambda j: -(j[2].get('nfft', 8) * (2 if j[2].get('cplx') else 1)))
     return run_property(PID, tier, HARNESS, jobs, JOBFNS,
         level_text='welch (real and complex) is executed with all samples symbolic; each returned value is extracted as an exact quadratic form of the input and must equal, for every input, the '
                    'segment-averaged window-normalised periodogram evaluated at the frequency the function itself returns for that entry (so the frequency axis is pinned for every signal, not only tones); '
